@@ -123,8 +123,32 @@ def run(tier, seed):
         if behs and what == "pairs":
             b = behs[len(behs) // 2]
             sample = {"abstract": b, "ddl": K.render(b)}
+    # ---- the lexer's after-columns mode (spec/Lexer.tla ClauseMode): every catalogue clause, token by token, model vs real lexer ----
+    from .. import lexer as L
+    from .. import lex_check as LF
+    tb = L.tables()
+    tpls = []
+    for c in ids:
+        real = L.lex_real("CREATE TABLE t1 ( a int ) " + K.CAT[c]["ddl"])
+        if any(t[0] == "ERROR" for t in real):
+            continue
+        slots = []
+        for typ, val, _ in real:
+            w = L.word(val, tb, rule={"STRING_BASE": "STRING", "DQ_STRING": "DQ", "DOT": "DOT"}.get(typ))
+            if typ == "EQ":
+                continue      # `=` has its own lexer rule and touches last_token only
+            slots.append(("kw" if typ not in ("ID", "STRING_BASE", "DQ_STRING") else "id", [w]))
+        tpls.append(slots)
+    lr = LF.mc(LF.consts(tb, tpls), "clause templates", invs=["ClauseMode", "FreshAtStart", "DepthTracked"])
+    states += lr.distinct
+    trans += lr.generated
+    lg = LF.mc(LF.consts(tb, tpls, WithHist="TRUE"), "clause templates (generation)", invs=[])
+    # `=` tokens were left out of the templates: compare with the real lexer on the same token values
+    bad = LF.drift_count(lg.beh)
+    cov["lexer_after_columns_mode"] = {"clause_templates": len(tpls), "behaviours_lexed": len(lg.beh), "token_type_or_flag_mismatches (model drift)": len(bad),
+                                       "examples": bad[:2]}
     rc = V.finish()
-    cov.update({"states": states, "transitions": trans, "traces_validated_against_impl": total, "samples": [sample], "exhaustive": True})
+    cov.update({"states": states, "transitions": trans, "traces_validated_against_impl": total + len(lg.beh), "samples": [sample], "exhaustive": True})
     C.write_evidence(PID, tier, seed, cov, time.time() - t0, len(V.viol),
                      ["clause texts, keys, values and placements are the frozen catalogue harness/clause_catalog.json (derived from the pinned tree, "
                       "reviewed against the property's list)", "clauses combine within one dialect; ORGANIZATION INDEX only directly after the columns",
